@@ -163,6 +163,17 @@ func (a *ar) deciding(ss []ast.Stmt, tracked map[string]bool, into map[string]bo
 		if shallowInert(s, tracked) {
 			continue
 		}
+		if as, ok := s.(*ast.AssignStmt); ok {
+			if lines, isAtom := a.assignAtoms[srcOfNode(as)]; isAtom {
+				// its meaning is given by the translation table: what it reads is what the Lean text given there reads
+				for _, tok := range strings.FieldsFunc(lines, func(r rune) bool {
+					return !(r == '_' || (r >= 'a' && r <= 'z') || (r >= 'A' && r <= 'Z') || (r >= '0' && r <= '9'))
+				}) {
+					into[tok] = true
+				}
+				continue
+			}
+		}
 		switch v := s.(type) {
 		case *ast.IfStmt:
 			if v.Init != nil {
@@ -680,6 +691,62 @@ func genDelTaint(repo, out string) {
 	b.WriteString("def delTaint (getNil getErr hasEsc updNil updErr : Bool) : Bool × Bool × Int :=\n" + body + "\n\n")
 	fmt.Fprintf(&b, "def numDelTaintUnknown : Nat := %d\n\nend Esc.Gen\n", a.unknown)
 	writeIfChanged(filepath.Join(out, "DelTaint.lean"), b.String())
+}
+
+// genLoops: one iteration of the loops of taintOldestN (scale_down.go) and untaintNewestN (scale_up.go) as step functions on the
+// number of nodes done so far
+func genLoops(repo, out string) {
+	sd := parse(filepath.Join(repo, "pkg/controller/scale_down.go"))
+	su := parse(filepath.Join(repo, "pkg/controller/scale_up.go"))
+	var b strings.Builder
+	b.WriteString("/- GENERATED by /verif/extract from /repo/pkg/controller/scale_down.go (taintOldestN) and scale_up.go (untaintNewestN) — do not edit. -/\nimport Esc.Gen.Arith\nnamespace Esc.Gen\n\n")
+	total := 0
+	step := func(f *ast.File, fn, list, leanName, params, doc string, atoms map[string][2]string, calls map[string][][2]string, pre map[string]string, assigns map[string]string, contains map[string]string) {
+		a := &ar{fn: "loopStep", endExpr: "(false, count, attempted_)", atoms: atoms, callAtoms: calls, callPre: pre, assignAtoms: assigns, containsAtoms: contains}
+		body := "  (true, count, false) -- loop not found"
+		fd := findFunc(f, fn)
+		var lb []ast.Stmt
+		if fd != nil && fd.Body != nil {
+			for _, s := range fd.Body.List {
+				if rs, ok := s.(*ast.RangeStmt); ok && srcOf(rs.X) == "sorted" && rs.Value != nil && srcOf(rs.Value) == "bundle" {
+					lb = rs.Body.List
+				}
+			}
+		}
+		if lb != nil {
+			a.markInert(lb, map[string]bool{list: true})
+			body = "  let attempted_ : Bool := false\n" + a.block(lb, env{"count": kI, "n": kI}, "  ")
+		} else {
+			a.unknown++
+		}
+		b.WriteString(doc + "def " + leanName + " " + params + " : Bool × Int × Bool :=\n" + body + "\n\n")
+		total += a.unknown
+	}
+	step(sd, "taintOldestN", "taintedIndices", "taintStep", "(count n : Int) (dry addErr : Bool)",
+		"/-- One iteration of the loop of `taintOldestN`: (the loop stops here, nodes tainted so far afterwards, the node was attempted).\n    `count` = `len(taintedIndices)`, `addErr`: `AddToBeRemovedTaint` returned an error. -/\n",
+		map[string][2]string{"len(taintedIndices)": {"count", "I"}, "c.dryMode(nodeGroup)": {"dry", "B"}},
+		map[string][][2]string{"k8s.AddToBeRemovedTaint(bundle.node, c.Client, nodeGroup.Opts.TaintEffect)": {{"", ""}, {"addErr", "B"}}},
+		map[string]string{"k8s.AddToBeRemovedTaint(bundle.node, c.Client, nodeGroup.Opts.TaintEffect)": "let attempted_ : Bool := true"},
+		map[string]string{
+			"taintedIndices = append(taintedIndices, bundle.index)":                     "let count : Int := (count + 1)",
+			"bundle.node = updatedNode":                                                 "",
+			"nodeGroup.taintTracker = append(nodeGroup.taintTracker, bundle.node.Name)": "let attempted_ : Bool := true",
+		}, nil)
+	step(su, "untaintNewestN", "untaintedIndices", "untaintStep", "(count n : Int) (dry hasEsc delErr inTracker : Bool)",
+		"/-- One iteration of the loop of `untaintNewestN`. `hasEsc`: `GetToBeRemovedTaint` finds the taint on the listed copy; `delErr`:\n    `DeleteToBeRemovedTaint` returned an error; `inTracker`: the dry-mode tracker contains the node's name. -/\n",
+		map[string][2]string{"len(untaintedIndices)": {"count", "I"}, "c.dryMode(nodeGroup)": {"dry", "B"}, "deleteIndex != -1": {"inTracker", "B"}},
+		map[string][][2]string{
+			"k8s.GetToBeRemovedTaint(bundle.node)":              {{"", ""}, {"hasEsc", "B"}},
+			"k8s.DeleteToBeRemovedTaint(bundle.node, c.Client)": {{"", ""}, {"delErr", "B"}},
+		},
+		map[string]string{"k8s.DeleteToBeRemovedTaint(bundle.node, c.Client)": "let attempted_ : Bool := true"},
+		map[string]string{
+			"untaintedIndices = append(untaintedIndices, bundle.index)": "let count : Int := (count + 1)",
+			"bundle.node = updatedNode":                                 "",
+			"nodeGroup.taintTracker = append(nodeGroup.taintTracker[:deleteIndex], nodeGroup.taintTracker[deleteIndex+1:]...)": "let attempted_ : Bool := true",
+		}, nil)
+	fmt.Fprintf(&b, "def numLoopsUnknown : Nat := %d\n\nend Esc.Gen\n", total)
+	writeIfChanged(filepath.Join(out, "Loops.lean"), b.String())
 }
 
 func genReap(repo, out string) {
